@@ -97,6 +97,10 @@ var numExtra = []NumSpec{
 		return cty.NumberVal(new(big.Float).SetMantExp(new(big.Float).SetInt64(1<<52+1), -1126))
 	}},
 	{"minsubnormal", func() cty.Value { return cty.NumberFloatVal(math.SmallestNonzeroFloat64) }},
+	// exactly representable as float64, long decimal expansion, held at the parser's 512 bits
+	{"2^-30@512", func() cty.Value { return parseNum("0.000000000931322574615478515625") }},
+	{"float64(0.1)exact@512", func() cty.Value { return parseNum("0.1000000000000000055511151231257827021181583404541015625") }},
+	{"-(1+2^-40)@512", func() cty.Value { return parseNum("-1.0000000000009094947017729282379150390625") }},
 	{"1.5*2^1100", func() cty.Value { return cty.NumberVal(new(big.Float).SetMantExp(big.NewFloat(1.5), 1100)) }},
 }
 
